@@ -32,6 +32,10 @@ GEN_AUDIT += ["Dashu.Audit.C05Order"]
 # round 7: link to C11's mirrored exp / ln / powf bodies (results fit precision+1 digits => cmp = order of the values)
 GEN_PROPS += ["Dashu.Props.C05Trans"]
 GEN_AUDIT += ["Dashu.Audit.C05Trans"]
+# round 8: link to C08's mirrored Context::convert_base (with_base / with_base_and_precision): every `.ok` result is a good
+# register (canonical, finite, <= precision+1 digits of the new base) => cmp / == follow the values; histories may start from them
+GEN_PROPS += ["Dashu.Props.C05Base"]
+GEN_AUDIT += ["Dashu.Audit.C05Base"]
 JOBS = 12
 READY = True
 
@@ -816,6 +820,12 @@ REFINED = [
     "series loops, so the closing with_precision(p) always rounds (or the path ends in powi at p / an exact shortcut) "
     "(Proofs/Int/FloatTrans; Props/C05Trans.float_transcendental_results_fit); hence cmp of any two such results of any two precisions "
     "<= isize::MAX is the order of the exact values (float_cmp_of_transcendental_results)",
+    "round 8: link to C08 — every .ok result of C08's mirrored Context::convert_base (Model/Text/Float.convertBase = with_base / "
+    "with_base_and_precision / to_decimal / to_binary on every path but ln/exp; executed against the real code by C08's driver) at a "
+    "precision p >= 1 is a good register: canonical (FCanon), finite, <= p+1 digits of the NEW base, for any two bases >= 2, mode, "
+    "operand (Props/C05Base.float_with_base_results_good); hence cmp of any two such results (any source bases, precisions <= "
+    "isize::MAX) decides <,=,> of the exact values and == <=> Equal (float_cmp_of_with_base_results; good_pair_value_order for any two "
+    "good registers), and any float history started from with_base results keeps the invariant (float_history_from_with_base_results)",
     "round 6: TryFrom<f32/f64> for FBig<R,2> / Repr<2> is an instruction of the float history (`fromFloat`: Repr::new(man, exp), "
     "precision = bit length of the mantissa, 0 for +-0.0), executed by the driver op `f.from` on C06's mirrored decode",
 ]
@@ -834,7 +844,11 @@ FRONTIER = [
     "TryFrom<f32/f64> (round 6: history instruction `fromFloat`, executed by the driver op `f.from` on C06's mirrored `decode`); exp / exp_m1 / ln / "
     "ln_1p / powf (round 7: proved about C11's mirrored bodies, Props/C05Trans.float_transcendental_results_fit — not instructions of "
     "float_history, and normalisation (FCanon) of their results is not proved: it holds by repr_round/powi's Repr::new, sampled by "
-    "`f.ctx`/`f.fits`); NOT modelled here: with_base (C08; fix 02e179b)",
+    "`f.ctx`/`f.fits`); with_base / with_base_and_precision (round 8: proved about C08's mirrored `convertBase`, "
+    "Props/C05Base.float_with_base_results_good — every return that does not go through ln/exp, p >= 1, is canonical, finite and has "
+    "<= p+1 digits of the new base (fix 02e179b); not an instruction of float_history, but its results are admissible INITIAL registers: "
+    "float_history_from_with_base_results); the ln/exp branch of convert_base (|exponent| above the small-exponent threshold, bases not "
+    "powers of one another) is not mirrored by C08 and has no theorem: sampled by f.viabase / f.basecmp only",
     "FBig::from_parts_const (own normaliser + precision-inference loop on a double word) is hand-mirrored "
     "(Model/Int/FloatConst.lean; a const-fn loop over DoubleWord is outside the typed translator's subset: Tie B only, `f.norm` "
     "prints the inferred precision); proved: its representation = Repr::normalize for every base and double word "
@@ -857,8 +871,9 @@ FRONTIER = [
     "float_cmp_equal_iff_eq; FBig implements no Hash; RBig/Relaxed: ratio_cmp, relaxed_eq, rbig_eq, rbig_hash_follows_value, "
     "ratio_cmp_equal_iff_eq + C05Link.rational_history_eq_cmp_hash. cmp of floats produced by exp/ln/powf: float_cmp_of_transcendental_results "
     "(round 7, about C11's mirrored bodies; cmp = specFCmp, the order of the values; `Equal <=> ==` for them would also need their "
-    "normalisation, not proved). Clauses WITHOUT a theorem: cmp of floats produced by "
-    "with_base (producer not in float_history: sampled by f.viabase / f.basecmp only); "
+    "normalisation, not proved). cmp of floats produced by with_base: float_cmp_of_with_base_results (round 8, about C08's mirrored "
+    "convert_base: cmp decides <,=,> of the exact values and == <=> Equal for any two results of any source bases / modes / precisions "
+    "<= isize::MAX; Clause WITHOUT a theorem: results of convert_base's ln/exp branch, sampled by f.viabase / f.basecmp only); "
     "`cmp is the total order of the values` for floats: specFCmp = order of the rational values signif*B^exp in ℚ with the "
     "infinities at the ends (Props/C05Order.float_spec_is_value_order, float_spec_infinities_at_ends; as ONE order on ⊥ < ℚ < ⊤: "
     "float_spec_is_extended_value_order, float_spec_trans, float_cmp_is_extended_value_order), the code's comparison "
@@ -907,6 +922,8 @@ THEOREMS += ["Dashu.Props.C05." + n for n in ["float_spec_is_value_order", "floa
                                                "float_cmp_is_extended_value_order",
                                                "float_history_value_order_any_precision", "float_history_cmp_total_order"]]
 THEOREMS += ["Dashu.Props.C05.float_transcendental_results_fit", "Dashu.Props.C05.float_cmp_of_transcendental_results"]
+THEOREMS += ["Dashu.Props.C05." + n for n in ["float_with_base_results_good", "good_pair_value_order", "float_cmp_of_with_base_results",
+                                               "float_history_from_with_base_results"]]
 THEOREMS += ["Dashu.Props.C05.from_parts_const_normalized", "Dashu.Props.C05.constStrip_eq_removeAll",
              "Dashu.Props.C05.from_parts_const_fits", "Dashu.Props.C05.constDigits_spec"]
 
@@ -929,7 +946,10 @@ LEVEL_TEXT = ("Machine-checked Lean 4 theorems that (integers, every word size a
               "to isize::MAX (fix ee43486 of the isize overflow found in round 5) is part of the regenerated text, the model and the hypothesis. "
               "Round 7: the results of C11's mirrored exp / exp_m1 / ln / ln_1p / powf bodies are proved to fit precision+1 digits, so cmp of "
               "any two of them is the order of the values (link to C11); the value-order theorem for float histories holds at ANY precisions "
-              "(only <= 2^63 digits assumed) and cmp is transitive / swap-symmetric on the registers of a history.")
+              "(only <= 2^63 digits assumed) and cmp is transitive / swap-symmetric on the registers of a history. "
+              "Round 8: every result of C08's mirrored convert_base (with_base / with_base_and_precision, all paths but ln/exp) is proved "
+              "canonical, finite and within precision+1 digits of the new base, so cmp / == of any two of them, and of anything a float "
+              "history computes from them, follow the values (link to C08).")
 LEVEL_NOTE = ("Trusted: Lean kernel; axioms propext/Classical.choice/Quot.sound; correspondence harness + generators (sampling) for the "
               "tie model<->code and for the claim that *every* producer yields canonical form (proved here only for the producers listed "
               "in refined_kernels); the digit-estimate hypothesis. Repaired during this work: floats leaving with_base/convert_base "
